@@ -418,6 +418,7 @@ class BracketHooks(NumHooks):
             if fname.endswith(('ParameterCommand.enable', 'ParameterCommand.disable')) or \
                (info is not None and info.cls is not None and info.cls.name == 'ParameterCommand' and info.name in ('enable', 'disable')):
                 state.env['__plevel'] = state.env.get('__plevel', 0) + (1 if last == 'enable' else -1)
+                state.env['__bracket_seen'] = True
                 return A.NONE
         if fname == 'self.readOptionalSigns' or (fname in self.READERS and fname != 'self.' + self.own) or fname in ('self.readKeyword', 'self.readSequence'):
             self._note(state, fname[5:])
@@ -454,6 +455,10 @@ def bracket_rules(chk, m, rid):
             continue
         chk.paths += len(outs)
         got = set()
+        if not any(s2.env.get('__bracket_seen') for kind, s2, v in outs):
+            # no disable()/enable() was recognised at all on this tree: the bracket may be spelled in a way the scenario does not follow
+            chk.undecided(R, '%s reads under the bracket' % fname, 'no call of ParameterCommand.disable/enable was recognised in %s' % fname, chk.where(fn))
+            continue
         for kind, s2, v in outs:
             if kind != 'return':
                 continue
